@@ -5804,6 +5804,8 @@ def merge_parts(parts, reassign="voice"):
 def _fill_rests_within_measure(measure: Measure, part: Part) -> None:
     start_time = measure.start.t
     end_time = measure.end.t
+    # the divisions in force in this measure (they may change along the part)
+    divs = int(part.quarter_duration_map(start_time))
     notes = np.array(
         list(part.iter_all(GenericNote, start_time, end_time, include_subclasses=True))
     )
@@ -5821,14 +5823,14 @@ def _fill_rests_within_measure(measure: Measure, part: Part) -> None:
                 # solution when estimation returns composite durations.
                 sym_dur = estimate_symbolic_duration(
                     end_time - start_time,
-                    part._quarter_durations[0],
+                    divs,
                     return_com_durations=True,
                 )
                 if isinstance(sym_dur, tuple):
                     st = start_time
                     for i, sd in enumerate(sym_dur):
                         et = st + symbolic_to_numeric_duration(
-                            sd, part._quarter_durations[0]
+                            sd, divs
                         )
                         rest = Rest(
                             symbolic_duration=sd, staff=staff, voice=new_voice
@@ -5853,7 +5855,7 @@ def _fill_rests_within_measure(measure: Measure, part: Part) -> None:
         if min_start_note.start.t > start_time:
             sym_dur = estimate_symbolic_duration(
                 min_start_note.start.t - start_time,
-                part._quarter_durations[0],
+                divs,
                 return_com_durations=True,
             )
             # solution when estimation returns composite durations.
@@ -5861,7 +5863,7 @@ def _fill_rests_within_measure(measure: Measure, part: Part) -> None:
                 st = start_time
                 for i, sd in enumerate(sym_dur):
                     et = st + symbolic_to_numeric_duration(
-                        sd, part._quarter_durations[0]
+                        sd, divs
                     )
                     rest = Rest(
                         symbolic_duration=sd,
@@ -5883,7 +5885,7 @@ def _fill_rests_within_measure(measure: Measure, part: Part) -> None:
         if min_end_note.end.t < end_time:
             sym_dur = estimate_symbolic_duration(
                 end_time - min_end_note.end.t,
-                part._quarter_durations[0],
+                divs,
                 return_com_durations=True,
             )
             # solution when estimation returns composite durations.
@@ -5891,7 +5893,7 @@ def _fill_rests_within_measure(measure: Measure, part: Part) -> None:
                 st = min_end_note.end.t
                 for i, sd in enumerate(sym_dur):
                     et = st + symbolic_to_numeric_duration(
-                        sd, part._quarter_durations[0]
+                        sd, divs
                     )
                     rest = Rest(
                         symbolic_duration=sd,
@@ -5919,14 +5921,14 @@ def _fill_rests_within_measure(measure: Measure, part: Part) -> None:
                 sym_dur = estimate_symbolic_duration(
                     notes_per_vocstaff[sort_note_start[i]].start.t
                     - notes_per_vocstaff[sort_note_end[i - 1]].end.t,
-                    part._quarter_durations[0],
+                    divs,
                     return_com_durations=True,
                 )
                 if isinstance(sym_dur, tuple):
                     st = notes_per_vocstaff[sort_note_end[i - 1]].end.t
                     for i, sd in enumerate(sym_dur):
                         et = st + symbolic_to_numeric_duration(
-                            sd, part._quarter_durations[0]
+                            sd, divs
                         )
                         rest = Rest(
                             symbolic_duration=sd,
@@ -5953,6 +5955,8 @@ def _fill_rests_global(
 ) -> None:
     start_time = measure.start.t
     end_time = measure.end.t
+    # the divisions in force in this measure (they may change along the part)
+    divs = int(part.quarter_duration_map(start_time))
     if end_time - start_time == 0:
         return
     notes = np.array(
@@ -5969,7 +5973,7 @@ def _fill_rests_global(
         ]
         if min_start_note.start.t > start_time:
             sym_dur = estimate_symbolic_duration(
-                min_start_note.start.t - start_time, part._quarter_durations[0]
+                min_start_note.start.t - start_time, divs
             )
             rest = Rest(
                 symbolic_duration=sym_dur,
@@ -5983,7 +5987,7 @@ def _fill_rests_global(
         ]
         if min_end_note.end.t < end_time:
             sym_dur = estimate_symbolic_duration(
-                end_time - min_end_note.end.t, part._quarter_durations[0]
+                end_time - min_end_note.end.t, divs
             )
             rest = Rest(
                 symbolic_duration=sym_dur,
@@ -6006,7 +6010,7 @@ def _fill_rests_global(
         diff = np.setdiff1d(y_sa, x_sa)
     for voice, staff in diff:
         sym_dur = estimate_symbolic_duration(
-            end_time - start_time, part._quarter_durations[0]
+            end_time - start_time, divs
         )
         rest = Rest(symbolic_duration=sym_dur, staff=staff, voice=voice)
         part.add(rest, start_time, end_time)
